@@ -135,6 +135,18 @@ def run_impl(case):
                 obs['resub'].append(muxlib.run_plain_twice(case['ast'], items))
             except Exception as e:
                 obs['resub'].append({'raised': type(e).__name__})
+    # the public entry point: the same pipeline behind rs.state.with_memory_store on a PLAIN source, on the items of the
+    # first lifetime and on an EMPTY source (a reduce emits its seed fold for the one key although no item arrived)
+    if case['ast'][0][0] != 'mean' and not any(e[0] == 'e' for e in case['trace']):
+        lts = muxgen.lifetimes_of(case['trace'])
+        for items in ([lts[0][1]] if lts else []) + [[]]:
+            try:
+                m = muxprop.entry_point_mismatch(case['ast'], items)
+            except Exception as e:
+                m = 'entry point run raised %s' % type(e).__name__
+            if m:
+                obs['entry'] = '%d items: %s' % (len(items), m)
+                break
     return obs
 
 
@@ -224,6 +236,8 @@ def oracle(case, obs):
     if 'raised' in obs:
         return {'sig': 'scan:raised', 'what': 'raised %s to the caller' % obs['raised']}
     node = case['ast'][0]
+    if obs.get('entry'):
+        return {'sig': 'scan:entry-point', 'what': obs['entry']}
     if node[0] == 'mean' and node[2]:
         return None
     for lt in lifetimes_with_errors(case['trace']):
